@@ -101,7 +101,7 @@ def grid(tier, rnd):
                     continue
                 for sh, sc in ((0.0, 0.0), (5.0, 3.0), (0.0, 8.0)):
                     for eta in ((0.7, 1.0) if tier == "quick" else (0.5, 0.7, 0.9, 1.0)):
-                        pts.append((f, Te, lift, sh, sc, eta, rnd.choice([1.0, 42.0, 750.0])))
+                        pts.append((f, Te, lift, sh, sc, eta, rnd.choice([0.02, 1.0, 42.0, 750.0, 2.5e4])))     # any positive duty: from 20 W (in kW) to 25 MW
     # seeded random operating points over pure fluids: evaporating level anywhere between the triple point (+5 K, >= -40 C) and
     # 27 K below the critical temperature, lifts from 3 K, superheat / subcooling up to 20 / 15 K, efficiencies down to 0.3
     from CoolProp.CoolProp import PropsSI
@@ -112,7 +112,7 @@ def grid(tier, rnd):
         Te = round(rnd.uniform(lo, hi - 12), 1)
         lift = round(rnd.uniform(3, min(80, hi - Te)), 1)
         pts.append((f, Te, lift, float(rnd.choice([0, 0, 2, 5, 10, 20])), float(rnd.choice([0, 0, 3, 8, 15])),
-                    rnd.choice([0.3, 0.5, 0.7, 0.9, 1.0]), rnd.choice([1.0, 42.0, 750.0])))
+                    rnd.choice([0.3, 0.5, 0.7, 0.9, 1.0]), rnd.choice([0.02, 1.0, 42.0, 750.0, 2.5e4])))
     return [(i,) + p for i, p in enumerate(pts)]
 
 
